@@ -13,13 +13,13 @@ CHECKS.update({
    text="For random programs, assignments derived from the honest one by pinning 1-3 slots and re-deriving the rest over Circuit::ops are judged by an independent evaluator of the op relations; whenever all ops are satisfied, every source relation (definitions, connects, asserts, bit decompositions) must hold. ~130k non-vacuous antecedents per quick run. Exploration only.",
    note="Trusted: the harness' op semantics (opsem.rs, written from the Op documentation) and source semantics (e1.rs). Fused products nobody else refers to are treated as don't-care slots. Ext (de)composition statements are excluded here (value precondition; see C12).", ref="DESIGN.md §3 C03", engine="E1"),
  "C09": dict(cat="exploration", tech="property-based testing (proptest): invariant over compiled circuits recomputed from committed preprocessed traces",
-   text="For random programs x packings x 7 field configurations the WitnessChecks interactions of all tables are decoded from the committed preprocessed traces and checked: per-slot multiplicities sum to zero, one creator per read slot, no relation-relevant ALU operand with multiplicity 0 on a slot other rows refer to. Known shapes (two Const/Public creators, Horner positional contract, duplicate NPO outputs) are excluded by construction and replayed as KNOWN-FINDING.",
+   text="For random programs x packings x 7 field configurations the WitnessChecks interactions of all tables are decoded from the committed preprocessed traces and checked: per-slot multiplicities sum to zero, one creator per read slot, no relation-relevant ALU operand with multiplicity 0 on a slot other rows refer to. Known shapes (two Const/Public creators, Horner positional contract, duplicate NPO outputs) are excluded by construction and replayed as KNOWN-FINDING. Additionally, library-built circuits with Merkle-mode permutation tables (half of them steered to an exactly full table) are proven and verified: a lookup rejection of the honest traces means the bus does not balance.",
    note="Trusted: the documented table layouts as decoded in pv.rs; bus semantics = per-slot signed multiplicity sums (values are consistent on honest traces, which C10 checks dynamically).", ref="DESIGN.md §3 C09", engine="E1"),
  "C10": dict(cat="exploration", tech="property-based testing (proptest): random satisfying programs x prover configurations, prove + verify with the real prover",
-   text="Random satisfying programs (7 field configurations, lanes 1-4, Horner packing 2-4, min heights, recompose tables) are run, proven with BatchStarkProver and verified; run Ok must imply prove Ok and verify Ok. 6000 proofs per quick run.",
+   text="Random satisfying programs (7 field configurations, lanes 1-4, Horner packing 2-4, min heights, recompose tables) are run, proven with BatchStarkProver and verified; run Ok must imply prove Ok and verify Ok. 6000 proofs per quick run. A second sub-check proves honest MMCS opening circuits (Merkle-mode permutation rows), half of them with the permutation table steered to be exactly full (no padding row).",
    note="Trusted: the repo's own StarkConfig presets; p3-batch-stark verifier. Documented UnclaimedPrivateInput cases are discarded (counted).", ref="DESIGN.md §3 C10", engine="E1+E2"),
  "C18": dict(cat="exploration", tech="property-based testing (proptest) over runtime nondeterminism: repeated compilation in-process and in child processes, canonical digest comparison",
-   text="Each generated program is compiled 6 times in one process (fresh hash seeds per map) and in 3 child processes with different rayon thread counts; a canonical digest of ops, numbering, table degrees/order, preprocessed columns, preprocessed commitment and traces must be identical.",
+   text="Each generated program is compiled 6 times in one process (fresh hash seeds per map) and in 3 child processes with different rayon thread counts; a canonical digest of ops, numbering, table degrees/order, preprocessed columns, preprocessed commitment and traces must be identical. A third sub-check derives AIRs, degrees and preprocessed traces of circuits with two Poseidon2 tables (width 16 and 32, registered through poseidon2_air_builders_for_configs) 8 times and requires identical table order and traces.",
    note="Hash seeds and thread schedules are sampled, not controlled; proof bytes are not compared (parallel PoW grinding).", ref="DESIGN.md §3 C18", engine="E1+E5"),
 })
 
@@ -31,13 +31,13 @@ CHECKS.update({
    text="Random histories (observe base/ext/slices, sample base/ext/bits, PoW valid/invalid, clear; 0-60 ops, thorough 300) over 14 challenger configurations x recompose table on/off are run against the native challenger and the in-circuit challenger; every sampled target must equal the native sample and run() must succeed iff every PoW check is natively valid. All sequences of length <= 3 over a 10-symbol alphabet are enumerated.",
    note="Trusted: p3-challenger DuplexChallenger and the native permutations.", ref="DESIGN.md §3 C05", engine="E4"),
  "C07": dict(cat="exploration", tech="differential property testing (proptest) with JSON-path fault injection on FRI proofs: native Pcs::verify vs in-circuit verifier",
-   text="Generated FRI parameter sets and commitment shapes (mixed heights/arity schedules, shared and distinct opening points) are opened honestly with the native PCS; each of 1-10 single-leaf alterations (and bad PoW witnesses) is judged by native Pcs::verify and by the circuit (full transcript+MMCS variant, and verify_fri_circuit with fixed challenges); verdicts must agree in both directions.",
-   note="Configuration: BabyBear quartic, Poseidon2-w16, cap height 0. Trusted: p3-fri native verifier.", ref="DESIGN.md §3 C07", engine="E3+E4"),
+   text="Generated FRI parameter sets and commitment shapes (mixed heights/arity schedules, shared and distinct opening points) are opened honestly with the native PCS; each of 1-10 single-leaf alterations (and bad PoW witnesses) is judged by native Pcs::verify and by the circuit (full transcript+MMCS variant, and verify_fri_circuit with fixed challenges); verdicts must agree in both directions. MMCS cap heights 0-2.",
+   note="Configuration: BabyBear quartic, Poseidon2-w16, TwoAdicFriPcs (the hiding PCS is exercised by C01's zk configurations). Trusted: p3-fri native verifier.", ref="DESIGN.md §3 C07", engine="E3+E4"),
  "C08": dict(cat="exploration", tech="differential property testing (proptest) with single-fault injection on Merkle openings: native MerkleTreeMmcs::verify_batch vs in-circuit gadgets",
    text="Batches of 1-6 matrices (heights 1-64 incl. non powers of two, widths 1-20, cap heights, arity 2/4, hiding, base/extension leaves, 6 configurations) are committed and opened natively; at most one fault (opened value, sibling word, index bit, cap word, salt) is applied and the native verdict compared with the circuit's run verdict, both directions. Small geometries are enumerated completely (every index).",
    note="Trusted: p3-merkle-tree. Declared-dimension lies are outside the quantifier and only explored on request (observations/c08_dim_lies.json).", ref="DESIGN.md §3 C08", engine="E4"),
  "C12": dict(cat="fault_enumeration", tech="property-based fault injection (proptest): alternative hint outputs satisfying the recomposition identity, proven and verified",
-   text="For decompose_to_bits (full/shortened widths) and decompose_ext_to_base_coeffs (ALU chain, recompose table, recompose/coeff table) over 7 field configurations the hint outputs are replaced by bits of limb+p, non-boolean bits with the same weighted sum, moved coefficient mass (non-base coefficients), and identity-breaking controls; everything downstream is re-derived, proven and verified. Accepted implies canonical.",
+   text="For decompose_to_bits (full/shortened widths) and decompose_ext_to_base_coeffs (ALU chain, recompose table, recompose/coeff table) over 7 field configurations the hint outputs are replaced by bits of limb+p, non-boolean bits with the same weighted sum, moved coefficient mass (non-base coefficients), and identity-breaking controls; everything downstream is re-derived, proven and verified. Accepted implies canonical. Further alternatives: bits carrying extension-field junk that cancels inside each bit and across the sum; one flipped bit with another bit of the limb absorbing the difference.",
    note="The prover controls all hint outputs and the consumer's public result. Known classes (bits of x+p; non-base coefficients with the ALU chain / standard recompose table) are listed findings.", ref="DESIGN.md §3 C12", engine="E2"),
  "C20": dict(cat="exploration", tech="differential property testing (proptest): each verifier gadget vs its native Plonky3 counterpart and an explicit formula",
    text="Selectors/vanishing polynomial, quotient recomposition (1-16 chunks, ZK doubling), periodic columns, polynomial evaluation, exponentiation by constants, final query point and per-height evaluation points are built with public inputs, run, and compared with the native computation over 7 configurations, with branch-boundary parameters histogrammed and small shapes enumerated over all indices. 1.7M evaluations per quick run.",
@@ -46,19 +46,19 @@ CHECKS.update({
 
 CHECKS.update({
  "C11": dict(cat="exploration", tech="differential property testing (proptest + exhaustive per-cell enumeration): AIR constraint evaluation on hand-built rows vs the defining relation over the true extension field",
-   text="For every ALU kind (incl. packed Horner k=2..4), Const/Public/Recompose tables and seven Poseidon1/2 table shapes, over 10 field/extension configurations and lanes 1-4, tables are built cell by cell from the documented layouts (valid, one cell perturbed, fully random); the set of rows flagged by the constraint evaluator must equal the set of rows whose relation fails. Every (operand, coefficient) cell is perturbed once per (kind, configuration, lanes, k).",
+   text="For every ALU kind (incl. packed Horner k=2..4), Const/Public/Recompose tables and seven Poseidon1/2 table shapes, over 10 field/extension configurations and lanes 1-4, tables are built cell by cell from the documented layouts (valid, one cell perturbed, fully random); the set of rows flagged by the constraint evaluator must equal the set of rows whose relation fails. Every (operand, coefficient) cell is perturbed once per (kind, configuration, lanes, k). Two cooperating cells are also perturbed together (scalar and extension-field pairs, multipliers taken from neighbouring cells; enumerated for Horner rows).",
    note="Trusted: p3-field extension arithmetic, native permutations, DebugConstraintBuilder evaluation. Bus (cross-table) effects are C04/C09's subject.", ref="DESIGN.md §3 C11", engine="E4"),
  "C13": dict(cat="exploration", tech="differential property testing (proptest): random symbolic constraint DAGs / generated-program AIRs compiled to circuits vs reference evaluator and the native p3 constraint folder",
-   text="Random symbolic DAGs (all leaf kinds, Arc sharing, base/extension, depth up to 10^4) are compiled with the repo's symbolic compiler and compared node by node with a reference evaluator; generated-program AIRs and the repo's own AIRs go through eval_folded_circuit and are compared with VerifierConstraintFolderWithLookups on the same openings, alpha, selectors and lookup challenges. 1.16M evaluations per quick run.",
+   text="Random symbolic DAGs (all leaf kinds, Arc sharing, base/extension, depth up to 10^4) are compiled with the repo's symbolic compiler and compared node by node with a reference evaluator; generated-program AIRs and the repo's own AIRs go through eval_folded_circuit and are compared with VerifierConstraintFolderWithLookups on the same openings, alpha, selectors and lookup challenges. 1.16M evaluations per quick run. ProgramAir includes extension assertions made only of lifted base expressions (several per program).",
    note="Trusted: p3-air symbolic types, p3-lookup native folder. One listed finding (fold order when an AIR emits extension constraints before base constraints).", ref="DESIGN.md §3 C13", engine="E4"),
  "C16": dict(cat="fault_enumeration", tech="property-based fault injection (proptest): JSON-path edits of proof metadata + postcard/JSON round trips, native verifier verdicts",
-   text="BatchStarkProofs of random circuits (honest traces and natively rejected forged traces) get 1-2 edits of self-declared metadata (every scalar leaf outside the inner proof, table-list drop/duplicate/swap); an invalid-trace proof must stay rejected, changed field parameters must be rejected, verification must not panic, and postcard/JSON round trips must preserve the verdict.",
+   text="BatchStarkProofs of random circuits (honest traces and natively rejected forged traces) get 1-2 edits of self-declared metadata (every scalar leaf outside the inner proof, table-list drop/duplicate/swap); an invalid-trace proof must stay rejected, changed field parameters must be rejected, verification must not panic, and postcard/JSON round trips must preserve the verdict. A second sub-check empties the lookup contexts (not serialised) of table subsets, prover-side before proving an invalid trace or in the finished in-memory proof: the proof must be rejected in memory and the verdict must survive postcard/JSON round trips.",
    note="verify_all_tables takes the preprocessed commitment from the proof; binding to a circuit is the caller's comparison (not claimed).", ref="DESIGN.md §3 C16", engine="E2+E3"),
 })
 
 CHECKS.update({
  "C19": dict(cat="exploration", tech="differential property testing (proptest) across build profiles: the same (program, input plan) cases run in the release binary and in the debug-assertion binary",
-   text="Random programs rich in hint / recompose-NPO consumers and connect-shared slots x input plans (provide once, skip, too short, too long, set twice equal/conflicting) are executed by the release-profile runner and by the debug-assertion-profile runner (child process). Verdict classes must agree, success requires consistently provided inputs (or inputs the circuit itself determines) and the reference values, no panic/abort in either profile. 150k cases per quick run.",
+   text="Random programs rich in hint / recompose-NPO consumers and connect-shared slots x input plans (provide once, skip, too short, too long, set twice equal/conflicting) are executed by the release-profile runner and by the debug-assertion-profile runner (child process). Verdict classes must agree, success requires consistently provided inputs (or inputs the circuit itself determines) and the reference values, no panic/abort in either profile. 150k cases per quick run. One more plan supplies complete inputs with one value changed (possibly conflicting with what the circuit determines): on success every input slot must hold the supplied value.",
    note="UB is observed through behaviour, not proven absent. Builder-stage failures (e.g. debug-only assertions in connect) are outside the runner property and discarded (counted).", ref="DESIGN.md §3 C19", engine="E1"),
 })
 
@@ -70,13 +70,13 @@ CHECKS.update({
    text="For generated proof shapes (uni-STARK and batch-STARK families incl. lookups, preprocessed columns, ZK/hiding PCS and hiding MMCS; BabyBear/KoalaBear degree 4; heights, widths, quotient chunks, FRI parameters and cap heights varied) the verifier circuit is built from proof A and fed with the packed vectors of an independent proof B: lengths must equal the documented flat lengths, every allocated target must hold B's documented element (target structures walked against B's serialised form), and changing any single position (public, private, Merkle sibling data) must make the run fail iff native verification rejects the same change. Quick: 400 shapes x 400 sampled positions; thorough: every position of 6000 shapes.",
    note="Trusted: serde image of the proof types, native p3 verifiers. ZK batches restricted to one table (upstream prover deadlock); pure extension deltas on lifted base-field public inputs have no native counterpart and are evidence-only.", ref="DESIGN.md §3 C14, §7", engine="E4"),
  "C15": dict(cat="fault_enumeration", tech="property-based structural fault injection (proptest + exhaustive single-alteration enumeration) on serialised proofs and companion data; optional libFuzzer target (harness/fuzz) over the same oracle",
-   text="Honest bundles of nine configurations (uni/batch/circuit-prover proofs; BabyBear, KoalaBear D4/D5, Goldilocks D2; preprocessed, lookups, ZK, non-primitive tables, multi-arity FRI) are serialised to JSON; the schema (variable-length arrays, count leaves, options) is probed from the deserialiser; EVERY array x {truncate, extend, empty}, EVERY option x toggle and EVERY count leaf x 21 edits is applied once (7983 cases), plus 8000 (thorough 200000) random 1-2 alteration combinations. Oracle: the pipeline allocate/verify_*_circuit/build/pack/set inputs/run never panics, never returns Ok where the native verifier rejects, and length changes of shape-validated vectors are rejected at build with InvalidProofShape.",
+   text="Honest bundles of nine configurations (uni/batch/circuit-prover proofs; BabyBear, KoalaBear D4/D5, Goldilocks D2; preprocessed, lookups, ZK, non-primitive tables, multi-arity FRI) are serialised to JSON; the schema (variable-length arrays, count leaves, options) is probed from the deserialiser; EVERY array x {truncate, extend, empty}, EVERY option x toggle and EVERY count leaf x 21 edits is applied once (7983 cases), plus 8000 (thorough 200000) random 1-2 alteration combinations. Oracle: the pipeline allocate/verify_*_circuit/build/pack/set inputs/run never panics, never returns Ok where the native verifier rejects, and length changes of shape-validated vectors are rejected at build with InvalidProofShape. A recorded baseline (7410 alterations the recorded tree rejects while the circuit is built) must stay rejected at build time (rejection-moved-later).",
    note="Size-like counts are clamped to avoid OOM/abort (the unclamped region is a listed finding). Listed findings are matched per (panic site, message class, leaf class). Native panic means no verdict for the weaker-circuit oracle.", ref="DESIGN.md §3 C15, §7", engine="E3"),
  "C01": dict(cat="exploration", tech="differential property testing (proptest + exhaustive leaf enumeration) with JSON-path single-leaf alterations and bad-trace proofs: native uni/batch STARK verifier vs the verifier circuit's run verdict",
    text="17 configurations (uni-STARK, direct batch-STARK, ZK/hiding PCS incl. salted hiding MMCS, circuit-prover batch proofs; BabyBear D4, KoalaBear D4/D5, Goldilocks D2, arity-4 MMCS) x generated FRI parameters, AIRs (public values, preprocessed columns, degrees 2-4, periodic columns, no-next-row) and heights: the honest proof must be accepted by both verifiers; each of 1-12 single-leaf alterations (field element, digest word, index, public value, commitment, common data) must be judged identically by the native verifier and by the circuit (built from the altered bundle, MMCS on); a third of the cases add a proof made by the release prover from a trace with one altered cell (the only rejected proofs on which the quotient connect / LogUp terminal sum is the sole failing check). Every numeric leaf of 29 small proofs is enumerated (12789 leaves). Thorough: 160 proofs with all 141228 leaves at two values each.",
    note="Trusted: p3-uni-stark / p3-batch-stark native verifiers. Deterministic PoW grinding wrapper makes replays exact. Statement metadata of BatchStarkProof is not altered (C16's subject). Two completeness findings listed (periodic columns; AIRs that never read the next row in the uni circuit).", ref="DESIGN.md §3 C01, §7", engine="E3+E4"),
  "C17": dict(cat="exploration", tech="model-based property testing (proptest) over call histories of the recursion API: generated sequences of next-layer / aggregation / parameter-change steps with cache disciplines, model = statement carried by each output and circuit digest carried by each cache; native verification of every layer output as oracle",
-   text="Histories of up to 3 (thorough 5) proving steps over the unified recursion API (prove_next_layer, prove_aggregation_layer) on KoalaBear/BabyBear D4: left/right inputs are uni-STARK or batch-STARK statements or earlier outputs, valid or invalid; each step uses no cache, a fresh cache or a cache reused from any earlier call; parameter changes (table packing, constraint profile, FRI arity/queries, PoW bits) between steps. After every step: valid inputs with no/fresh/same-circuit cache must give Ok and an output that verifies natively (and agree with the uncached call); invalid inputs must give Err under every cache discipline; a cache prepared for a different circuit must give Err or a verifying output, never a non-verifying output or a panic; outputs chain into later steps. 800 generated + 60 engineered histories per quick run.",
+   text="Histories of up to 3 (thorough 5) proving steps over the unified recursion API (prove_next_layer, prove_aggregation_layer) on KoalaBear/BabyBear D4: left/right inputs are uni-STARK or batch-STARK statements or earlier outputs, valid or invalid; each step uses no cache, a fresh cache or a cache reused from any earlier call; parameter changes (table packing, constraint profile, FRI arity/queries, PoW bits) between steps. After every step: valid inputs with no/fresh/same-circuit cache must give Ok and an output that verifies natively (and agree with the uncached call); invalid inputs must give Err under every cache discipline; a cache prepared for a different circuit must give Err or a verifying output, never a non-verifying output or a panic; outputs chain into later steps. 800 generated + 60 engineered histories per quick run. Engineered histories cover fill / parameter change / miss / hit sequences on one cache slot.",
    note="The model's circuit digest is computed from the full op list, not from the repo's four fingerprint counters. Two cache-handling findings listed (next-layer cache carries no fingerprint; aggregation fingerprint does not identify the circuit). Quick tier is 1000+ CPU-seconds.", ref="DESIGN.md §3 C17, §7", engine="E5"),
 })
 
